@@ -1,8 +1,8 @@
 """C03, C04, C05, C10, C11, C12: the scoring family (models MC_Score40 / MC_Score3x / MC_Score20, M2 oracle tables)."""
 from . import core
 
-CFG40V = 'CONSTANT Mode = "views"\nINIT Init\nNEXT Next\nINVARIANTS ViewInRange EmitView\nCHECK_DEADLOCK FALSE\n'
-CFG40C = 'CONSTANT Mode = "classes"\nINIT Init\nNEXT Next\nINVARIANTS ClassesOK\nCHECK_DEADLOCK FALSE\n'
+CFG40V = 'CONSTANTS\n Mode = "views"\n Stripe = 1\n Phase = 0\nINIT Init\nNEXT Next\nINVARIANTS ViewInRange EmitView\nCHECK_DEADLOCK FALSE\n'
+CFG40C = 'CONSTANTS\n Mode = "classes"\n Stripe = 8\n Phase = %d\nINIT Init\nNEXT Next\nINVARIANTS ClassesOK\nCHECK_DEADLOCK FALSE\n'
 CFG3X = 'INIT Init\nNEXT Next\nINVARIANTS InRange RoundupsAgree MissCap TempBelow Emit\nCHECK_DEADLOCK FALSE\n'
 CFG20 = 'INIT Init\nNEXT Next\nINVARIANTS InRange BaseNonNeg SetsSmall Emit\nCHECK_DEADLOCK FALSE\n'
 
@@ -56,7 +56,7 @@ def score_check(ctx):
             run('lift40', r['out'], 'v4 severity steps on realisations, after scoring a neighbour', n=K)
         if thorough and pid in ('C04', 'C12'):
             # the monolithic definition on all classes = the composed tables; monotone along every severity step
-            ctx.tlc('MC_Score40', CFG40C, name='MC_Score40_classes', timeout=7000)
+            ctx.tlc('MC_Score40', CFG40C % ctx.seed, name='MC_Score40_classes', timeout=7000)
     if pid in ('C03', 'C10', 'C11', 'C12'):
         r = tlc3x(ctx)
         if pid in ('C03', 'C11', 'C12'):
